@@ -40,10 +40,12 @@ CLAIMED = {
                   "Property.values / extend_values / Section.create_property accept a list exactly when every element (loop invariant "
                   "over every position) has the property's data type (the first element's type on creation), that a refused "
                   "assignment leaves extent and content untouched (no write before the check on any raising path), that accepted "
-                  "values are what is written and that extend writes right behind the old values.",
+                  "values are what is written and that extend writes right behind the old values; that `key in section` holds exactly for "
+                  "the names / ids of its properties and child sections and `len(section)` counts its properties (both read the two "
+                  "backend groups, store untouched).",
              note="Trusted: h5py dataset resize/write/dtype primitives over the abstract store; numpy array construction as an "
                   "uninterpreted function; Property.create_new and the Property.values getter enter as assumed summaries; h5py "
-                  "accepts type-checked values; dict-style section access and persistence across reopen: bounded battery C10/bounded/c10 only.",
+                  "accepts type-checked values; section[key] / section[key] = v / del section[key] / iteration order and persistence across reopen: bounded battery C10/bounded/c10 only.",
              ref="7 C10"),
  "C17": dict(text="Delegation only: deductive proof that File.flush() reaches h5py's flush on every path, that File.close() flushes "
                   "or closes (which flushes) on every path, and that the file-access property list nixio opens files with is the "
